@@ -693,7 +693,14 @@ def translate_dict_table(repo, file, func, lean, valty, enums, doc):
     """a function whose body contains `dic = {timeframes.X: value, ...}`: emit the table as an
     association list over Timeframe (value Nat or Timeframe)."""
     tree = ast.parse(open(os.path.join(repo, file)).read())
-    fd = find_def(tree, func)
+    if func.startswith('module:'):
+        fd = None
+        for s in tree.body:
+            if isinstance(s, ast.Assign) and len(s.targets) == 1 and isinstance(s.targets[0], ast.Name) \
+                    and s.targets[0].id == func[7:] and isinstance(s.value, ast.Dict):
+                fd = s
+    else:
+        fd = find_def(tree, func)
     if fd is None:
         raise TErr(f'{func} not found')
     dic = None
@@ -985,6 +992,8 @@ def main():
     for (file, func, lean, valty, doc) in [
         ('jesse/utils.py', 'timeframe_to_one_minutes', 'tfMinutesTable', 'Nat', 'minutes per timeframe'),
         ('jesse/utils.py', 'anchor_timeframe', 'anchorTable', 'TF', 'anchor timeframe table'),
+        ('jesse/modes/backtest_mode.py', 'module:timeframe_to_one_minutes', 'btTfMinutesTable', 'Nat',
+         'the simulator own minutes-per-timeframe table'),
     ]:
         key = f'{file}:{func}'
         try:
